@@ -19,6 +19,7 @@ RULE = (
     ">=2 elements sharing >=1 node with a clear spectral gap; distinct = sha1 of the case."
     ' elastic_rows / thermal_rows: enumerated rows of 2 and 3 elements of every continuum type under an affine map (non-trivial = every case).'
     ' mass_fields: enumerated sub-meshes of n elements (n = mass points, stiffness points, 5) of every continuum type with a per-element or per-point density / capacity (non-trivial = every case). elastic_curved / thermal_curved: every 2D type on a bent mesh, reference areas from the element boundaries (Green).'
+    ' Round 8: a third of the continuum / thermal cases make read-only queries on the mesh (point evaluation, measures, normals) before the simulation is built.'
 )
 ASSUMPTIONS = [
     "dense symmetric eigensolver (LAPACK) and analytic rigid-body modes are the oracle",
